@@ -263,7 +263,18 @@ fn one_query(sh: &Shared, rng: &mut Rng, nrec: &[usize; 4], req: &mut [u8], out:
     };
     let id = rng.next() as u16;
     let len = build_query(kind, id, signed_with, req);
-    let res = handle(&sh.server, &req[..len], out);
+    // a panic of the handler (e.g. a key looked up in one snapshot and indexed in another) is an
+    // observation like any other: recorded with a marker no catalog generation carries
+    let res = match std::panic::catch_unwind(std::panic::AssertUnwindSafe(|| handle(&sh.server, &req[..len], out))) {
+        Ok(r) => r,
+        Err(_) => {
+            let hi = sh.cat_started.load(SeqCst);
+            let khi = sh.key_started.load(SeqCst);
+            sh.queries.fetch_add(1, SeqCst);
+            return format!("snapobs {} {} {} {} {} {} {} {}", lo, hi, klo, khi, nrec[kind],
+                signed_with.map(|j| j.to_string()).unwrap_or_else(|| "-".to_string()), fmt_markers(&[999_999_997]), fmt_sig(None));
+        }
+    };
     let hi = sh.cat_started.load(SeqCst);
     let khi = sh.key_started.load(SeqCst);
     sh.queries.fetch_add(1, SeqCst);
